@@ -3,7 +3,7 @@
 # Confirms: patch applies to a pristine tree, 55 tests pass with it, demo fails with it and passes without. Then runs the quick checks
 # (default: the property's own) with SHANGRLA_REPO pointing at the changed worktree. Writes /tmp/seed_out/<Cxx>/eval.txt
 id=$1; shift
-wt=/tmp/seed_$id; out=/tmp/seed_out/$id
+P=${SEED_PREFIX:-seed}; wt=/tmp/${P}_$id; out=/tmp/${P}_out/$id
 checks=${@:-$id}
 {
 echo "== $id"
